@@ -202,6 +202,7 @@ def import_time_only(src, files):
         return out
     # runtime-reachable = least fixpoint from the runtime roots over the (name-based) call relation
     callees = {}
+    module_level = {fn.name.lstrip('_') for (f, cls, fn) in funcs.values() if cls is None}
     for key, (f, cls, fn) in funcs.items():
         names = set()
         for n in walk_no_nested(fn):
@@ -209,6 +210,8 @@ def import_time_only(src, files):
                 nm = n.func.attr if isinstance(n.func, ast.Attribute) else (n.func.id if isinstance(n.func, ast.Name) else None)
                 if nm:
                     names.add(nm.lstrip('_'))
+            elif isinstance(n, ast.Name) and isinstance(n.ctx, ast.Load) and n.id.lstrip('_') in module_level:
+                names.add(n.id.lstrip('_'))         # a module-level function used as a value (`f = helper`, a table of functions): whoever holds it may call it
         callees[key] = names
     by_short = {}
     for key, (f, cls, fn) in funcs.items():
